@@ -1,13 +1,23 @@
-import Fatchoy.Model.C11
+import Fatchoy.Model.C11ZS
 import Fatchoy.Drv.Util
 namespace Fatchoy.C11
 open Fatchoy.Drv
 
-/-- what the driver holds: a sorted set (layer Z), a bare skip list (layer L), or nothing yet -/
+/-
+The driver runs the STRUCTURAL model: a sorted set over S (`z…` commands, layer ZS) or a bare
+structural skip list (`l…` commands).  Every answer is also computed by the content-level layers
+(Z over L, resp. L) on the abstraction of the current structure; a difference is appended as
+` !L=<answer>` (the refinement theorems say this never happens).  After every mutating command — and on
+`zshape`/`lshape` — the answer carries ` # <shape>`: level, length, header spans and per node
+score/height: spans, in the format of the probe `VerifShape` of hook H6, so the structure itself
+(tower heights, every span) is compared with the real code.
+-/
+
+/-- what the driver holds: a sorted set over S, a bare structural skip list, or nothing yet -/
 inductive DrvState
   | none
-  | z (s : ZSet)
-  | l (s : SL)
+  | z (s : ZS)
+  | l (s : S.SList)
 
 def showNode (n : Node) : String := s!"{n.score}:{n.ele}"
 def showNodeOpt : Option Node → String
@@ -28,83 +38,150 @@ def sortNat (l : List Nat) : List Nat := (l.toArray.qsort (· < ·)).toList
 def flag? (s : String) : Option Bool :=
   if s == "0" then some false else if s == "1" then some true else none
 
-/-- layer Z commands: `z<method> args` -/
-def parseZ : List String → Option Op
-  | ["zlen"] => some .len
-  | ["zadd", e, s] => do some (.add (← e.toNat?) (← s.toInt?))
-  | ["zrem", e] => do some (.remove (← e.toNat?))
-  | ["zrrs", a, b] => do some (.removeRangeByScore (← a.toInt?) (← b.toInt?))
-  | ["zrrr", a, b] => do some (.removeRangeByRank (← a.toInt?) (← b.toInt?))
-  | ["zcount", a, b] => do some (.count (← a.toInt?) (← b.toInt?))
-  | ["zrank", e, r] => do some (.getRank (← e.toNat?) (← flag? r))
-  | ["zscore", e] => do some (.getScore (← e.toNat?))
-  | ["zrange", a, b, r] => do some (.getRange (← a.toInt?) (← b.toInt?) (← flag? r))
-  | ["zrbs", a, b, r] => do some (.getRangeByScore (← a.toInt?) (← b.toInt?) (← flag? r))
+/-- `ZSkipList.VerifShape()` -/
+def showShape (s : S.SList) : String :=
+  let head := " ".intercalate ((List.range s.level).map (fun i => toString (S.cell s 0 i).span))
+  let nodes := (S.ids s).map (fun x =>
+    s!" | {(S.nd s x).score}/{S.height s x}: " ++ " ".intercalate ((S.nd s x).lv.map (fun c => toString c.span)))
+  s!"level={s.level} len={s.length} | {head}" ++ String.join nodes
+
+/-- a node pointer as the harness prints it -/
+def showPtr (s : S.SList) : Option Nat → String
+  | none => "nil"
+  | some 0 => "head"
+  | some x => showNode (S.nodeOf s x)
+
+/-- layer Z commands: `z<method> args`; `zadd` carries the tower height drawn (0 = no node inserted) -/
+def parseZ : List String → Option (Op × Nat)
+  | ["zlen"] => some (.len, 0)
+  | ["zadd", e, s, h] => do some (.add (← e.toNat?) (← s.toInt?), ← h.toNat?)
+  | ["zrem", e] => do some (.remove (← e.toNat?), 0)
+  | ["zrrs", a, b] => do some (.removeRangeByScore (← a.toInt?) (← b.toInt?), 0)
+  | ["zrrr", a, b] => do some (.removeRangeByRank (← a.toInt?) (← b.toInt?), 0)
+  | ["zcount", a, b] => do some (.count (← a.toInt?) (← b.toInt?), 0)
+  | ["zrank", e, r] => do some (.getRank (← e.toNat?) (← flag? r), 0)
+  | ["zscore", e] => do some (.getScore (← e.toNat?), 0)
+  | ["zrange", a, b, r] => do some (.getRange (← a.toInt?) (← b.toInt?) (← flag? r), 0)
+  | ["zrbs", a, b, r] => do some (.getRangeByScore (← a.toInt?) (← b.toInt?) (← flag? r), 0)
   | _ => none
 
-/-- layer L commands: one per exported `ZSkipList` method, answered from the content list -/
-def stepL (l : SL) : List String → Option (SL × String)
-  | ["llen"] => some (l, toString l.length)
-  | ["lhead"] => some (l, showNodeOpt l.head?)
-  | ["ltail"] => some (l, showNodeOpt l.getLast?)
-  | ["ldump"] => some (l, s!"{showNodes l} | {showNodes l.reverse}")
-  | ["linsert", s, e] => do
-    let s ← s.toInt?; let e ← e.toNat?
-    some (L.insert l s e, showNode ⟨s, e⟩)
-  | ["ldelete", s, e] => do
-    let s ← s.toInt?; let e ← e.toNat?
-    let r := L.delete l s e
-    some (r.1, showNodeOpt r.2)
-  | ["lrank", s, e] => do
-    let s ← s.toInt?; let e ← e.toNat?
-    some (l, toString (L.getRank l s e))
+def mutatesZ : Op → Bool
+  | .add .. | .remove .. | .removeRangeByScore .. | .removeRangeByRank .. => true
+  | _ => false
+
+/-- answer of the structural model, checked against the content-level answer `viaL` -/
+def both (viaS viaL : String) : String := if viaS == viaL then viaS else s!"{viaS} !L={viaL}"
+
+def showGone (gone : List Node) : String := s!"{gone.length} del={showNatList (sortNat (gone.map (·.ele)))}"
+
+/-- one `l…` command on the structural skip list: (list after, answer, mutating?) -/
+def stepL (s : S.SList) : List String → Option (S.SList × String × Bool)
+  | ["llen"] => some (s, both (toString s.length) (toString (S.abs s).length), false)
+  | ["lhead"] => some (s, both (showPtr s (S.cell s 0 0).fwd) (showNodeOpt (S.abs s).head?), false)
+  | ["ltail"] => some (s, both (showPtr s s.tail) (showNodeOpt (S.abs s).getLast?), false)
+  | ["ldump"] =>
+    let back := (S.chainBack s s.nodes.length s.tail).map (S.nodeOf s)
+    some (s, both s!"{showNodes (S.abs s)} | {showNodes back}" s!"{showNodes (S.abs s)} | {showNodes (S.abs s).reverse}", false)
+  | ["lshape"] => some (s, "ok", true)
+  | ["linsert", sc, e, h] => do
+    let sc ← sc.toInt?; let e ← e.toNat?; let h ← h.toNat?
+    match S.insert s sc e h with
+    | some (s', id) =>
+      let viaL := L.insert (S.abs s) sc e
+      let ans := both (showPtr s' (some id)) (showNode ⟨sc, e⟩)
+      some (s', if S.abs s' == viaL then ans else ans ++ s!" !Labs={showNodes viaL}", true)
+    | none => some (s, "diverge", true)
+  | ["ldelete", sc, e] => do
+    let sc ← sc.toInt?; let e ← e.toNat?
+    match S.delete s sc e with
+    | some (s', r) =>
+      let viaL := L.delete (S.abs s) sc e
+      let ans := both (showPtr s r) (showNodeOpt viaL.2)
+      some (s', if S.abs s' == viaL.1 then ans else ans ++ s!" !Labs={showNodes viaL.1}", true)
+    | none => some (s, "diverge", true)
+  | ["lrank", sc, e] => do
+    let sc ← sc.toInt?; let e ← e.toNat?
+    match S.getRank s sc e with
+    | some r => some (s, both (toString r) (toString (L.getRank (S.abs s) sc e)), false)
+    | none => some (s, "diverge", false)
   | ["lbyrank", r] => do
     let r ← r.toInt?
-    some (l, match L.getElementByRank l r with
+    let viaL := match L.getElementByRank (S.abs s) r with
       | .head => "head"
       | .node n => showNode n
-      | .none => "nil")
+      | .none => "nil"
+    match S.getElementByRank s r with
+    | some p => some (s, both (showPtr s p) viaL, false)
+    | none => some (s, "diverge", false)
   | ["linrange", a, b] => do
     let a ← a.toInt?; let b ← b.toInt?
-    some (l, showBool (L.isInRange l a b))
+    some (s, both (showBool (S.isInRange s a b)) (showBool (L.isInRange (S.abs s) a b)), false)
   | ["lfirst", a, b] => do
     let a ← a.toInt?; let b ← b.toInt?
-    some (l, showNodeOpt (L.firstInRange l a b))
+    match S.firstInRange s a b with
+    | some p => some (s, both (showPtr s p) (showNodeOpt (L.firstInRange (S.abs s) a b)), false)
+    | none => some (s, "diverge", false)
   | ["llast", a, b] => do
     let a ← a.toInt?; let b ← b.toInt?
-    some (l, showNodeOpt (L.lastInRange l a b))
+    match S.lastInRange s a b with
+    | some p => some (s, both (showPtr s p) (showNodeOpt (L.lastInRange (S.abs s) a b)), false)
+    | none => some (s, "diverge", false)
   | ["ldrs", a, b] => do
     let a ← a.toInt?; let b ← b.toInt?
-    let r := L.deleteRangeByScore l a b
-    some (r.1, s!"{r.2.length} del={showNatList (sortNat (r.2.map (·.ele)))}")
+    match S.deleteRangeByScore s a b with
+    | some (s', gone) =>
+      let viaL := L.deleteRangeByScore (S.abs s) a b
+      let ans := both (showGone gone) (showGone viaL.2)
+      some (s', if S.abs s' == viaL.1 then ans else ans ++ s!" !Labs={showNodes viaL.1}", true)
+    | none => some (s, "diverge", true)
   | ["ldrr", a, b] => do
     let a ← a.toInt?; let b ← b.toInt?
-    let r := L.deleteRangeByRank l a b
-    some (r.1, s!"{r.2.length} del={showNatList (sortNat (r.2.map (·.ele)))}")
+    match S.deleteRangeByRank s a b with
+    | some (s', gone) =>
+      let viaL := L.deleteRangeByRank (S.abs s) a b
+      let ans := both (showGone gone) (showGone viaL.2)
+      some (s', if S.abs s' == viaL.1 then ans else ans ++ s!" !Labs={showNodes viaL.1}", true)
+    | none => some (s, "diverge", true)
   | _ => none
 
 /-- `zdump`: what the public API shows of the whole set: `GetRange(0,-1,false)` and `GetScore` of each -/
-def zdump (z : ZSet) : String :=
-  match (step z (.getRange 0 (-1) false)).2 with
-  | .eles es =>
+def zdump (z : ZS) : String :=
+  match stepS z 0 (.getRange 0 (-1) false) with
+  | some (_, .eles es) =>
     if es.isEmpty then "-" else ",".intercalate (es.map (fun e => s!"{(dget z.dict e).getD 0}:{e}"))
-  | o => showOut o
+  | some (_, o) => showOut o
+  | none => "diverge"
 
 def drvStep (st : DrvState) (line : String) : DrvState × String :=
   match words line with
-  | ["znew"] => (.z ZSet.empty, "ok")
-  | ["lnew"] => (.l [], "ok")
+  | ["znew", ml] =>
+    match ml.toNat? with
+    | some ml => (.z (ZS.empty ml), "ok")
+    | none => (st, "bad-op")
+  | ["lnew", ml] =>
+    match ml.toNat? with
+    | some ml => (.l (S.new ml), "ok")
+    | none => (st, "bad-op")
   | ws =>
     match st with
-    | .none => (st, if (parseZ ws).isSome || (stepL [] ws).isSome || ws == ["zdump"] then "no-state" else "bad-op")
+    | .none =>
+      (st, if (parseZ ws).isSome || (stepL (S.new 1) ws).isSome || ws == ["zdump"] || ws == ["zshape"] then "no-state" else "bad-op")
     | .z z =>
-      if ws == ["zdump"] then (st, zdump z) else
-      match parseZ ws with
-      | some op => let r := step z op; (.z r.1, showOut r.2)
-      | none => (st, "bad-op")
+      if ws == ["zdump"] then (st, zdump z)
+      else if ws == ["zshape"] then (st, s!"ok # {showShape z.sl}")
+      else
+        match parseZ ws with
+        | some (op, h) =>
+          let viaL := showOut (step { dict := z.dict, zsl := S.abs z.sl } op).2
+          match stepS z h op with
+          | some (z', o) =>
+            let ans := both (showOut o) viaL
+            (.z z', if mutatesZ op then s!"{ans} # {showShape z'.sl}" else ans)
+          | none => (st, "diverge")
+        | none => (st, "bad-op")
     | .l l =>
       match stepL l ws with
-      | some (l', out) => (.l l', out)
+      | some (l', out, shp) => (.l l', if shp then s!"{out} # {showShape l'}" else out)
       | none => (st, "bad-op")
 
 def drvMain : IO Unit := Fatchoy.Drv.run DrvState.none drvStep
